@@ -156,8 +156,8 @@ PROPS = {
     "C05": dict(
         units=["sync"],
         undecided=["the protocol: join / replicate-since handshake, the supervisor loop, sockets, writes accepted during the synchronisation (async code, several processes)",
-                   "the incremental path get_pendding_opps_since_from_sync (oplog records -> lines: HashMap clones, &str / &String juggling and unwraps on id lookups) is a trusted "
-                   "external here; it builds its lines with the same three format strings",
+                   "the incremental path: that the operation-log query reports every pair changed since `since` is C12 (unit oplog); here ops_since(since) is any map of records whose "
+                   "identifiers decode (precondition `decodes`: C16's subject); the comparison closure of its sort_by is replaced by a trusted shim (log order)",
                    "the receiving side: that the parser and the ReplicateSet / CreateDb handlers turn a well-formed line back into the same key, value and version "
                    "(the parsers are proved total in unit parser, not inverse to the emitters: strings are uninterpreted for both verifiers) - the bounded sweep feeds the real lines through the real parser",
                    "startup: invalid oplog => since 0 (bin/main.rs)"],
